@@ -27,6 +27,29 @@ OPS = [
     (r"\.casefold\(\)", ".lower()"), (r"reverse=True", "reverse=False"), (r"maxsplit=1", "maxsplit=2"), (r"not in ", "in "), (r"\bin self\.", "not in self."),
     (r"len\(([a-z_]+)\) >= cutoff", r"len(\1) > cutoff"), (r"\.union\(", ".intersection("), (r"\.difference\(", ".union("),
 ]
+# second wave (--ops2): more operators, and deletion of simple statements (ids use operator numbers >= 100)
+OPS2 = [
+    (r"=True\b", "=False"), (r"=False\b", "=True"), (r"\breturn True\b", "return False"), (r"\breturn False\b", "return True"),
+    (r"\[-1\]", "[0]"), (r"\bmin\(", "max("), (r"\bmax\(", "min("), (r" < ", " <= "), (r" <= ", " < "), (r" \+ 1\b", " + 2"), (r" - 1\b", " - 2"),
+    (r"\.lower\(\)", ".upper()"), (r"\.strip\(\)", ""), (r"\.add\(", ".discard("), (r"\.extend\(", ".append("), (r"\bany\(", "all("), (r"\ball\(", "any("),
+    (r"\bnot ", ""), (r"\.lstrip\(", ".rstrip("), (r"\.rstrip\(", ".lstrip("), (r"\.removeprefix\(", ".removesuffix("), (r"\[:-1\]", "[1:]"),
+    (r"\.get\(([^,()]+)\)", r"[\1]"), (r"\belif\b", "if"), (r"\.items\(\)", ".items() if False"), (r"\.values\(\)", ".keys()"),
+    (r", reverse=True", ""), (r"key=len", "key=str"), (r"\.copy\(\)", ""), (r"\bdict\(([a-z_.]+)\)", r"\1"), (r"\blist\(([a-z_.]+)\)", r"\1"),
+    (r"\.fullmatch\(", ".match("), (r"\.match\(", ".search("), (r"\.split\(", ".rsplit("), (r"\.rpartition\(", ".partition("), (r"\.endswith\(", ".startswith("),
+]
+DELETE = 199   # operator number of "replace a simple statement by pass"
+
+
+def deletable(st):
+    """A simple statement whose removal leaves a syntactically valid body: a bare call, an augmented assignment,
+    an item/attribute assignment, `return` without value is excluded (nothing to delete)."""
+    if st.endswith((":", ",", "(", "[", "{", "\\")) or st.startswith((")", "]", "}", "return", "yield", "else", "elif", "try", "except", "finally", "with ", "for ", "while ", "if ", "def ", "class ", "raise", "pass", "assert")):
+        return False
+    if st.count("(") != st.count(")") or st.count("[") != st.count("]") or st.count("{") != st.count("}"):
+        return False
+    return bool(re.match(r"[A-Za-z_][\w.\[\]\"']*(\(.*\)|\s*[+\-|&]?=\s.*)$", st))
+
+
 # enclosing function -> checks
 FUNC_PIDS = {
     "parse_uri": ["C01", "C07"], "compress": ["C01", "C03"], "is_uri": ["C07", "C01"], "_index": ["C05", "C01"], "__init__": ["C04", "C01", "C02"],
@@ -110,7 +133,12 @@ def main():
         for i, line, func in code_lines(orig):
             if func in SKIP_FUNCS:
                 continue
-            for k, (pat, rep) in enumerate(OPS):
+            ops = list(enumerate(OPS))
+            if "--ops2" in sys.argv:
+                ops = [(100 + k, o) for k, o in enumerate(OPS2)]
+                if deletable(line.strip()):
+                    ops.append((DELETE, (r"^(\s*).*$", r"\1pass")))
+            for k, (pat, rep) in ops:
                 if not re.search(pat, line):
                     continue
                 new = re.sub(pat, rep, line, count=1)
